@@ -180,6 +180,12 @@ def cond_case(draw):
     target = draw(st.sampled_from(pool))
     results = ['res%d' % i if draw(st.booleans()) else 100 + i for i in range(n)]
     default = draw(st.one_of(st.none(), st.just('dflt'), st.sampled_from(pool)))   # a default that may equal the target
+    if not textual and draw(st.integers(0, 3)) == 0:
+        # the target (or a case) as the float that equals the integer: 2.0 = 2 holds, so the case is found
+        if draw(st.booleans()):
+            target = float(target)
+        else:
+            cases = [float(c) if draw(st.booleans()) else c for c in cases]
     if draw(st.integers(0, 4)) == 0:
         target = err(draw(st.sampled_from(CODES8)))
     elif draw(st.integers(0, 2)) == 0:
